@@ -499,34 +499,25 @@ def run(ctx: Ctx):
     else:
         ctx.cov["obligations"] = len(OBLIGATIONS)
     hb = ctx.build_harness("harness/c08_wheel.cpp", sanitize=True)
+    hs = ctx.build_harness("harness/c08_svc.cpp", sanitize=True)
     dist = {}
-    if hb and os.path.exists(ctx.model_bin()):
+    have_model = os.path.exists(ctx.model_bin())
+    if hb and have_model:
         r = rng.fork("wheel")
-        cases = load_corpus() + boundary_cases() + [gen_wheel_case(r, i) for i in range(3000 * scale)]
+        cases = load_corpus("wheel") + boundary_cases() + [gen_wheel_case(r, i) for i in range(3000 * scale)]
         res = ctx.lockstep("wheel", hb, cases, timeout=900)
-        n_mismatch = 0
         tot = {"fired": 0, "cancel_ok": 0, "resched_ok": 0}
-        for c, impl, model in res:
-            dist[c["cat"]] = dist.get(c["cat"], 0) + 1
-            st = wheel_hyp_stats(c, impl)
-            for k in tot:
-                tot[k] += st[k]
-            ctx.count_case("\n".join(c["ops"]), nontrivial=st["fired"] > 0)
-            if c["cat"] == "wheel" and len(ctx.cov["samples"]) < 5 and rng.chance(1, 300):
-                ctx.sample({"cat": c["cat"], "ops": c["ops"][:14], "impl": impl[:14]})
-            fails = monitor_wheel(c, impl)
-            mism = [(i, a, b) for i, (a, b) in enumerate(zip(impl, model)) if a != b]
-            if fails:
-                report_property(ctx, hb, c, impl, model, fails)
-            elif mism:
-                n_mismatch += 1
-                if n_mismatch <= 3:
-                    i, a, b = mism[0]
-                    ctx.violation("correspondence", "model and implementation disagree (no property monitor fails on this case): op `%s` impl=`%s` model=`%s`"
-                                  % (c["ops"][i][:120], a[:160], b[:160]),
-                                  {"broken": {"correspondence": "wheel lockstep (harness/c08_wheel.cpp vs Model/TimingWheel.lean)", "detail": "first differing op index %d" % i},
-                                   "ops": c["ops"], "observed": impl, "expected_by_model": model}, found_input=False)
+        judge(ctx, hb, res, monitor_wheel, "wheel lockstep (harness/c08_wheel.cpp vs Model/TimingWheel.lean)", dist, rng,
+              stats=lambda c, impl: wheel_hyp_stats(c, impl), tot=tot, nontrivial=lambda st: st["fired"] > 0)
         ctx.extra["wheel_totals"] = tot
+    if hs and have_model:
+        r = rng.fork("svc")
+        cases = load_corpus("svc") + svc_boundary_cases() + [gen_svc_case(r, i) for i in range(1500 * scale)]
+        res = ctx.lockstep("tsvc", hs, cases, timeout=900)
+        tot = {"starts": 0, "cancel_ok": 0, "gate_blocks": 0}
+        judge(ctx, hs, res, monitor_svc, "service lockstep (harness/c08_svc.cpp vs Model/TimerService.lean)", dist, rng,
+              stats=svc_stats, tot=tot, nontrivial=lambda st: st["starts"] > 0)
+        ctx.extra["svc_totals"] = tot
     ctx.extra["input_distribution"] = dist
     ctx.extra["repo_tree_sha"] = ctx.repo_tree_sha(ANCHOR_FILES)
     ctx.extra["not_proved"] = []
@@ -534,7 +525,47 @@ def run(ctx: Ctx):
     return ctx.finish(level="proof", rule="a case = one op list from `reset`; distinct = distinct op lists; non-trivial = at least one timer fired")
 
 
-def report_property(ctx, hb, c, impl, model, fails):
+def svc_stats(c, impl):
+    st = {"starts": 0, "cancel_ok": 0, "gate_blocks": 0}
+    for op, ans in zip(c["ops"], impl):
+        head = ans.split()[0] if ans else ""
+        if head.startswith("ev=") and head != "ev=-":
+            evs = head[3:].split(",")
+            st["starts"] += sum(1 for e in evs if e[0] == "s")
+            st["cancel_ok"] += sum(1 for e in evs if e[0] == "c" and e.endswith("=1"))
+            if evs[-1][0] == "s":
+                st["gate_blocks"] += 1
+        if op.startswith("cancel") and head == "1":
+            st["cancel_ok"] += 1
+    return st
+
+
+def judge(ctx, hbin, res, monitor, what, dist, rng, stats, tot, nontrivial):
+    """property monitor on the implementation's answers first; a pure model/implementation difference is a correspondence break"""
+    n_mismatch = 0
+    for c, impl, model in res:
+        dist[c["cat"]] = dist.get(c["cat"], 0) + 1
+        st = stats(c, impl)
+        for k in tot:
+            tot[k] += st.get(k, 0)
+        ctx.count_case("\n".join(c["ops"]), nontrivial=nontrivial(st))
+        if c["cat"] in ("wheel", "svc") and len(ctx.cov["samples"]) < 6 and rng.chance(1, 400):
+            ctx.sample({"cat": c["cat"], "ops": c["ops"][:12], "impl": [l[:150] for l in impl[:12]]})
+        fails = monitor(c, impl)
+        mism = [(i, a, b) for i, (a, b) in enumerate(zip(impl, model)) if a != b]
+        if fails:
+            report_property(ctx, hbin, c, impl, model, fails, monitor)
+        elif mism:
+            n_mismatch += 1
+            if n_mismatch <= 3:
+                i, a, b = mism[0]
+                ctx.violation("correspondence", "model and implementation disagree (no property monitor fails on this case): op `%s` impl=`%s` model=`%s`"
+                              % (c["ops"][i][:120], a[:160], b[:160]),
+                              {"broken": {"correspondence": what, "detail": "first differing op index %d" % i},
+                               "ops": c["ops"], "observed": impl, "expected_by_model": model}, found_input=False)
+
+
+def report_property(ctx, hb, c, impl, model, fails, monitor):
     ops = c["ops"]
     if not ctx.violation_budget("property", fails[0]):
         ctx.violation("property", fails[0])
@@ -548,11 +579,10 @@ def report_property(ctx, hb, c, impl, model, fails):
         out = out + ["crash:" + str(rc)] * (len(sub) - len(out))
         cc = dict(c)
         cc["ops"] = sub
-        return bool([f for f in monitor_wheel(cc, out) if f.split(":")[0] == tag])
+        return bool([f for f in monitor(cc, out) if f.split(":")[0] == tag])
     try:
         if len(ops) > 4 and still(ops):
             ops = [ops[0]] + ddmin(ops[1:], lambda s: still([ops[0]] + s), max_tests=80)
-            ops = [o for o in ops]
     except Exception:
         pass
     obj = {"ops": ops, "geom": c.get("geom"), "observed": impl if ops is c["ops"] else None, "expected_by_model": model if ops is c["ops"] else None,
@@ -560,14 +590,14 @@ def report_property(ctx, hb, c, impl, model, fails):
     ctx.violation("property", fails[0], obj, found_input=True)
 
 
-def load_corpus():
+def load_corpus(kind):
     d = os.path.join(os.path.dirname(os.path.dirname(os.path.abspath(__file__))), "corpus", "C08")
     out = []
     if os.path.isdir(d):
         for fn in sorted(os.listdir(d)):
             if fn.endswith(".json"):
                 c = json.load(open(os.path.join(d, fn)))
-                if c.get("kind", "wheel") != "wheel":
+                if c.get("kind", "wheel") != kind:
                     continue
                 c.setdefault("cat", "corpus")
                 out.append(c)
